@@ -70,6 +70,8 @@ def seeds_table():
             red = bool(r.get("rc"))
             with_input = red and any(l.startswith("VIOLATION") and "no-failing-input-found" not in l for l in r.get("lines", []))
             verdict = "**violation with failing input**" if with_input else ("violation, no-failing-input-found" if red else "MISSED")
+            if d.get("error"):
+                verdict = "the reverse patch no longer applies (a later fix rewrote the same lines); the same mechanism is covered by the seeded changes C05_m3 and C10_m3"
             others = ", ".join(sorted(p for p, x in checks.items() if p != tgt and isinstance(x, dict) and x.get("rc")))
             rows.append("| revert of fix `%s` | %s | %s: %s | %s |" % (d.get("commit", ""), re.sub(r"\|", "/", d.get("what", ""))[:150], tgt, verdict, others))
     return "\n".join(rows)
